@@ -10,8 +10,10 @@
 (*   s7 : --tag final --tag-num on a final version not refused (fixed: off)*)
 (*   s12: a pattern whose parts are all zero renders as the empty text,     *)
 (*        literal text included (the root is dropped like a group)          *)
+(*   s14: --ignore-vcs-tag with an automatic increment skips the uniqueness  *)
+(*        check                                                              *)
 (*   s16: legacy {dom_short} lists its alternatives shortest first and      *)
 (*        {doy_short} recognises only the padded form                        *)
 (***************************************************************************)
-Dev == [s2 |-> FALSE, s6 |-> FALSE, s7 |-> FALSE, s12 |-> TRUE, s16 |-> FALSE]
+Dev == [s2 |-> FALSE, s6 |-> FALSE, s7 |-> FALSE, s12 |-> TRUE, s14 |-> FALSE, s16 |-> FALSE]
 =============================================================================
